@@ -15,7 +15,7 @@ RULE = ("seeded district-heating loops (1-8 consumers in all five specification 
 ASSUMPTIONS = ["heat capacities come from the public Fluid API"]
 CONFIG = {"quick": {"shards": 8, "timeout_s": 600, "cases": 320},
           "thorough": {"shards": 16, "timeout_s": 3000, "cases": 8000}}
-REQUIRED_COUNTERS = ["exchanger_duties", "exchanger_duties_negative", "consumer_duties_MF_DT_sequential",
+REQUIRED_COUNTERS = ["exchanger_duties", "exchanger_duties_negative", "exchanger_duties_reverse_flow", "consumer_duties_MF_DT_sequential",
                      "consumer_duties_MF_TR_sequential", "consumer_duties_QE_MF_sequential",
                      "consumer_duties_QE_DT_bidirectional", "consumer_duties_QE_TR_bidirectional",
                      "consumer_setpoints_checked", "loop_closures"]
@@ -31,6 +31,10 @@ def gen_cases(tier, seed):
 def make(case):
     rng = rng_for("C11", case["seed"], case["i"])
     spec = netgen.gen_heating(rng, n=int(rng.integers(2, 9)), source=case["source"], negative_heat=True, u_max=5.0)
+    # exchangers entered against the flow direction (negative reported flow): the duty relation must hold all the same
+    for e in spec["elements"]:
+        if e["kind"] == "heat_exchanger" and rng.random() < 0.4:
+            e["from_junction"], e["to_junction"] = e["to_junction"], e["from_junction"]
     opts = {"use_numba": case["numba"], "iter": 200, "tol_p": 1e-10, "tol_m": 1e-10, "tol_res": 1e-9, "tol_T": 1e-9}
     return spec, opts
 
